@@ -21,11 +21,11 @@ open Hal Core Core.Ops C02L
 /-- a key that only carries the radix `b` (what `Ks.convIn` reads) -/
 def radixKey (b : Nat) : Ks.Key := ⟨b, 1, 1, ⟨0, 0, 0, 0, 0, []⟩⟩
 
-theorem mapM_some_of_forall {α β : Type} (f : α → Option β) (g : α → β) :
+theorem mapM_some_all {α β : Type} (f : α → Option β) (g : α → β) :
     ∀ (L : List α), (∀ x ∈ L, f x = some (g x)) → L.mapM f = some (L.map g)
   | [], _ => rfl
   | x :: xs, h => by
-    rw [List.mapM_cons, h x List.mem_cons_self, mapM_some_of_forall f g xs (fun y hy => h y (List.mem_cons_of_mem _ hy))]
+    rw [List.mapM_cons, h x List.mem_cons_self, mapM_some_all f g xs (fun y hy => h y (List.mem_cons_of_mem _ hy))]
     rfl
 
 /-- the columns of the converted cell, one by one: `normalizeCol?` of the column of `y` -/
@@ -79,7 +79,7 @@ theorem expandPre_cross_wf (N rb rs : Nat) (y yc : Ks.Ct) (t : ToGGSWKey) (hy : 
         (normalizeCol? t.base2k ((y.size * y.base2k + t.base2k - 1) / t.base2k) 0 (y.cols.getD (i + 1) []) y.base2k N).map
           (fun c => Hal.dftApplyCol N 1 0 ((y.size * y.base2k + t.base2k - 1) / t.base2k) c)) = some (maskOf t yc) := by
     unfold maskOf
-    apply mapM_some_of_forall
+    apply mapM_some_all
     intro i hi
     have hi' : i < t.rank := List.mem_range.mp hi
     rw [hcols (i + 1) (by omega), Option.map_some]
